@@ -21,6 +21,9 @@ pub enum MOp {
     Disable,
     /// trading flag of one asset switched through `get_order_book_mut(a)`
     AssetToggle { a: usize, on: bool },
+    /// the clock of asset 0 alone moved forward through `get_order_book_mut(0)` (asset 0 is the
+    /// one `Market::get_time` reads, so no book is ever moved backwards afterwards)
+    Asset0SetTime { dt: u64 },
     ResetTv,
     Reload { mode: u8 },
 }
@@ -58,7 +61,7 @@ impl<const A: usize, const L: usize> World<A, L> {
             let t = self.market.get_time() + s.dt;
             self.market.set_time(t);
             for b in self.shadows.iter_mut() {
-                b.set_time(b.get_time() + s.dt);
+                b.set_time(t);
             }
         }
         match &s.op {
@@ -119,8 +122,14 @@ impl<const A: usize, const L: usize> World<A, L> {
                 let t = self.market.get_time() + dt;
                 self.market.set_time(t);
                 for b in self.shadows.iter_mut() {
-                    b.set_time(b.get_time() + dt);
+                    b.set_time(t);
                 }
+                Ok((Ret::Unit, Ret::Unit))
+            }
+            MOp::Asset0SetTime { dt } => {
+                let t = self.market.get_order_book(0).get_time() + dt;
+                self.market.get_order_book_mut(0).set_time(t);
+                self.shadows[0].set_time(t);
                 Ok((Ret::Unit, Ret::Unit))
             }
             MOp::Enable => {
@@ -243,6 +252,11 @@ impl<const A: usize, const L: usize> World<A, L> {
         if A > 0 && m.get_time() != sh[0].get_time() {
             return Err(("shared-clock".into(), format!("market time {} shadows {}", m.get_time(), sh[0].get_time())));
         }
+        for a in 0..A {
+            if m.get_order_book(a).get_time() != sh[a].get_time() {
+                return Err(("shared-clock".into(), format!("asset {}: book time {} but its stand-alone book {}", a, m.get_order_book(a).get_time(), sh[a].get_time())));
+            }
+        }
         Ok(())
     }
 }
@@ -327,6 +341,9 @@ fn alphabet<const A: usize>(cfg: &MCfg, shadows: &[Snap], trading: bool) -> Vec<
             v.push(MOp::AssetToggle { a, on: false });
             v.push(MOp::AssetToggle { a, on: true });
         }
+        v.push(MOp::Asset0SetTime { dt: 3 });
+        // "synchronise": the market-level clock set to the value asset 0 already shows
+        v.push(MOp::SetTime { dt: 0 });
     } else if cfg.toggles {
         v.push(if trading { MOp::Disable } else { MOp::Enable });
     }
@@ -337,7 +354,12 @@ fn alphabet<const A: usize>(cfg: &MCfg, shadows: &[Snap], trading: bool) -> Vec<
     for &mode in &cfg.reload_modes {
         v.push(MOp::Reload { mode });
     }
-    v.into_iter().map(|op| MStep { dt: 1, op }).collect()
+    v.into_iter()
+        .map(|op| {
+            let dt = if matches!(op, MOp::SetTime { dt: 0 }) { 0 } else { 1 };
+            MStep { dt, op }
+        })
+        .collect()
 }
 
 #[derive(Default)]
@@ -391,6 +413,7 @@ fn kind(op: &MOp) -> &'static str {
         MOp::Enable => "enable",
         MOp::Disable => "disable",
         MOp::AssetToggle { .. } => "asset-toggle",
+        MOp::Asset0SetTime { .. } => "asset-0-set-time",
         MOp::ResetTv => "reset-trade-vols",
         MOp::Reload { .. } => "reload",
     }
